@@ -20,7 +20,7 @@ func init() {
 		Explanation: "Decides the selection/evaluation mechanism, not the operators' and transformations' values: R1 key normalisation agrees between compile time, store time and lookup time (tables extracted from caseSensitiveVariable, NewTransactionVariables and every method indexing the backing map: each lookup folds its key exactly like Map.Add does; regex selectors need compile-time folding == store-time folding); " +
 			"R2 GetField dispatches KeyRx!=nil -> FindRegex, KeyStr!=\"\" -> FindString, else FindAll, filters exceptions before counting, and the count datum is len(filtered) labelled with the rule's variable and key; R3 Operator.Evaluate is invoked only from executeOperator and negated iff operator.Negation, which only SetOperator writes; " +
 			"R4 the match datum appended by doEvaluate is (arg.Variable(), arg.Key(), transformed value) and dominated by match==true; R5 RuleGroup.rules is only appended or order-preservingly filtered and Eval walks it by ascending index; R6 a chain's actions and MatchRule are reachable only after every link returned a non-empty match list; " +
-			"R7 the phase filter lets a rule run only when Phase_==0 or Phase_==phase (non-multiphase builds); R8 selection loops are complete: concatenating views visit every member, result builders emit one datum per stored value, the exception predicate keeps its three disjuncts, AddVariableNegation visits every target, and the three evaluation loops of Rule.doEvaluate (targets, selected values, transformed values) are never left from inside (no early exit in any of these loops).",
+			"R7 the phase filter lets a rule run only when Phase_==0 or Phase_==phase (non-multiphase builds); R8 selection loops are complete: concatenating views visit every member, result builders emit one datum per stored value, the exception predicate keeps its three disjuncts, AddVariableNegation visits every target, and the three evaluation loops of Rule.doEvaluate (targets, selected values, transformed values) are never left from inside (no early exit in any of these loops); the size view (ARGS_COMBINED_SIZE) sums the key and value stored with each pair, not the folded map index.",
 		NotDecided: []string{
 			"that operators and transformations compute the right values (C14, C15)",
 			"regular-expression key semantics, exclusion semantics beyond the normalisation used",
